@@ -60,13 +60,14 @@ JsonVerdict(rec) ==
        IN IF Width(impl.ex) < 0 \/ Width(tru.ex) < 0 THEN [v |-> "oom"]
           ELSE IF SameJson(o, tru) /\ o.name = rec.name THEN
             (IF corr THEN [v |-> "agree", line |-> tru.line, col |-> tru.col, exlen |-> Len(tru.ex)] ELSE [v |-> "spec_error", info |-> info])
-          ELSE IF SameJson(o, impl) /\ o.name = rec.name THEN
-            (IF corr THEN [v |-> "agree_window", line |-> impl.line, col |-> impl.col, exlen |-> Len(impl.ex)]
-             ELSE IF d9 THEN [v |-> "known_d9", info |-> info]
-             ELSE IF d13 THEN [v |-> "known_d13", info |-> info]
-             ELSE [v |-> "mismatch", why |-> "the code's window report violates the property outside the known classes", info |-> info])
-          ELSE IF corr /\ o.name = rec.name /\ (d9 \/ d13 \/ (rec.tr = "pipe" /\ view.a > 0)) THEN [v |-> "correct_not_impl", info |-> info]
-          ELSE [v |-> "mismatch", why |-> "report differs from the specification", info |-> info]
+          ELSE IF corr /\ o.name = rec.name THEN
+            (IF SameJson(o, impl) THEN [v |-> "agree_window", line |-> impl.line, col |-> impl.col, exlen |-> Len(impl.ex)]
+             ELSE IF d9 \/ d13 \/ (rec.tr = "pipe" /\ view.a > 0) THEN [v |-> "correct_not_impl", info |-> info]
+             ELSE [v |-> "mismatch", why |-> "report differs from the specification (excerpt rule)", info |-> info])
+          ELSE IF SameJson(o, impl) /\ o.name = rec.name /\ d9 THEN [v |-> "known_d9", info |-> info]
+          ELSE IF o.name = rec.name /\ D13Signature(t, err, ObsRec(o)) THEN [v |-> "known_d13", info |-> info]
+          ELSE [v |-> "mismatch", why |-> IF SameJson(o, impl) THEN "the code's window report violates the property outside the known classes"
+                                          ELSE "report differs from the specification", info |-> info]
 
 \* YAML: the index comes from go-yaml (environment) and counts CHARACTERS; yamlParseError.Error uses it as
 \* a byte offset (D16).  impl = the report for "byte offset = index"; ideal = for the byte of that character.
